@@ -221,12 +221,38 @@ def _kind_switches(ctx, f):
         mask = ctx.F.consts.get(HDR + "::FrameKind::MASK", {}).get("v")
         is_kind = any(x[0] == "call" and x[1] == HDR + "::Header::frame_kind" for x in subterms(scrut)) or \
             (scrut[0] == "bin" and scrut[1] == "BitAnd" and mask is not None and ("const", mask) in (scrut[2], scrut[3]))
-        if is_kind:
+        if not is_kind:
+            continue
+        labs = [l for ls in edges.values() for l in ls]
+        if set(labs) <= {True, False}:
+            # `kind == FrameKind::X` in an if / else-if chain: the true edge decides kind X, the false edge is "anything else"
+            k = None
+            sc = scrut
+            neg = False
+            while sc[0] == "un" and sc[1] == "Not":
+                neg = not neg
+                sc = sc[2]
+            ops = sc[2] if sc[0] == "call" and sc[1] in ("std::cmp::PartialEq::eq", "std::cmp::PartialEq::ne") else ((sc[2], sc[3]) if sc[0] == "bin" and sc[1] in ("Eq", "Ne") else ())
+            if sc[0] == "call" and sc[1].endswith("::ne") or sc[0] == "bin" and sc[1] == "Ne":
+                neg = not neg
+            for o in ops:
+                if o[0] == "cdef" and "::FrameKind::" in o[1]:
+                    k = o[1].rsplit("::", 1)[1]
+                elif o[0] == "const":
+                    k = o[1]
+            if k is None:
+                continue
             lab = {}
             for tgt, ls in edges.items():
                 for l in ls:
-                    lab[l] = tgt
+                    lab[k if (l is True) != neg else "else"] = tgt
             out.append((bb, lab))
+            continue
+        lab = {}
+        for tgt, ls in edges.items():
+            for l in ls:
+                lab[l] = tgt
+        out.append((bb, lab))
     return out
 
 
@@ -244,9 +270,12 @@ def rule_frame_kind_dispatch(ctx):
         ctx.ob(R, "dispatch switch", True, "undecided shape (not reported): no switch over Header::frame_kind(..).0", f.loc())
         return
     forwarded = set()
+    sw_blocks = frozenset(bb for bb, _ in sw)     # an if / else-if chain is several switches: a label counts where it is decided
     for bb, lab in sw:
         for l, tgt in lab.items():
-            if set(sends) & cfg.reach_from([tgt], avoid_blocks=frozenset([bb])):
+            if tgt in sw_blocks:
+                continue
+            if set(sends) & cfg.reach_from([tgt], avoid_blocks=sw_blocks):
                 forwarded.add(l)
     ok1 = "else" not in forwarded
     ctx.ob(R, "unassigned kinds are not forwarded", ok1, "only explicit kind values %s lead to a frame hand-over; every other value is rejected" % sorted(x for x in forwarded if x != "else") if ok1 else
@@ -275,8 +304,10 @@ def rule_frame_kind_dispatch(ctx):
     sent_data = {}
     for bb, lab in sw:
         for l, tgt in lab.items():
-            r = cfg.reach_from([tgt], avoid_blocks=frozenset([bb]))
-            sent_data[l] = set(data_variant(b) for b in sends if b in r)
+            if tgt in sw_blocks:
+                continue
+            r = cfg.reach_from([tgt], avoid_blocks=sw_blocks)
+            sent_data.setdefault(l, set()).update(data_variant(b) for b in sends if b in r)
     needs_data = set()
     for g in rs:
         Tg = ctx.T(g)
@@ -289,6 +320,10 @@ def rule_frame_kind_dispatch(ctx):
     badd = sorted(str(l) for l in needs_data if sent_data.get(l, set()) - {"Some"})
     ctx.ob(R, "frames the reader unwraps carry data", not badd, "for kind(s) %s the reader unwraps frame.data and the dispatcher always builds Frame{data: Some(..)}" % sorted(map(str, needs_data)) if not badd else
            "for frame kind(s) %s ReadStream::read_exact unwraps frame.data but process_inbound_frames can forward a frame without data" % badd, f.loc())
+    if forwarded and accepted and set(map(type, forwarded - {"else"})) != set(map(type, accepted - {"else"})):
+        ctx.note("C14.4: the dispatcher names the kinds (%s) and the reader switches on their numeric values (%s) - subset not compared" % (sorted(map(str, forwarded)), sorted(map(str, accepted))))
+        ctx.ob(R, "forwarded kinds are handled by the reader", True, "undecided shape (not reported): kinds are tested by name on one side and by value on the other", f.loc())
+        return
     extra = sorted(str(x) for x in forwarded - accepted)
     ctx.ob(R, "forwarded kinds are handled by the reader", not extra, "forwarded kinds %s are all handled by ReadStream::read_exact (%s)" % (sorted(map(str, forwarded)), sorted(map(str, accepted))) if not extra else
            "process_inbound_frames forwards frame kind(s) %s that ReadStream::read_exact treats as unreachable" % extra, f.loc())
